@@ -124,6 +124,23 @@ def run(chk, ctx):
             reach = (None if lo == isets.NEG else int(lo),
                      None if hi == isets.POS else int(hi))
         ref = tags.get(tname, {})
+        if arm_set is not None:
+            # the arm's encoder must accept the whole arm (every integer of
+            # the documented range is encodable)
+            sf = tables.single_field(E)
+            if sf is not None:
+                accept = ISet.empty()
+                for seg, pth in sf:
+                    a_ = ISet.range(*pairs.fmt_range(seg))
+                    if pth.range is not None:
+                        a_ = a_.inter(ISet.range(*pth.range))
+                    accept = accept.union(a_)
+                missing = arm_set.minus(accept)
+                chk.ob('C03.I', 'tag %r arm accepted by %s' % (tag, callee),
+                       missing.is_empty(),
+                       'arm %r, encoder accepts %r' % (arm_set, accept),
+                       detail={'refused_although_in_range': repr(missing)},
+                       site='%s:%d' % (e.module.relpath, e.node.lineno))
         if ref.get('kind') in ('array', 'table'):
             # container framing is judged by C03.C
             res = [r for r in pairs.pair(E, D, reach=reach)
@@ -315,6 +332,14 @@ def container_checks(chk, ctx, decs):
             items[0].args[0] == 'encode.encode_table_value' and
             isinstance(items[0].args[1], Sym) and
             items[0].args[1].op == 'elem' for items in shapes)
+    if not loops:
+        comps = [c for c in it.comps if c['func'] is fa]
+        okk = len(comps) == 1 and len(comps[0]['elts']) == 1 and \
+            isinstance(comps[0]['elts'][0], Sym) and \
+            comps[0]['elts'][0].op == 'enc' and \
+            comps[0]['elts'][0].args[0] == 'encode.encode_table_value' and \
+            isinstance(comps[0]['elts'][0].args[1], Sym) and \
+            comps[0]['elts'][0].args[1].op == 'elem'
     chk.ob('C03.C', 'array writer element', okk,
            'each list item is appended as encode_table_value(item)',
            site='pamqp/encode.py::field_array')
